@@ -31,7 +31,9 @@ Record quirks := {
   q_union_any : bool;          (* an Any member of a union is wrapped in a typed _node: Kind_Invalid on read *)
   (* confirmed deviations of the GENERATED code (effective for engine Gen only) *)
   qg_tuple_missing : bool;     (* tuple ReprAssembler.Finish has no required-field check: missing fields keep Go zero values *)
-  qg_nullable_kinded_null : bool (* kinded union ReprAssembler.AssignNull refuses null even in a nullable slot *)
+  qg_nullable_kinded_null : bool; (* kinded union ReprAssembler.AssignNull refuses null even in a nullable slot *)
+  qg_stringprefix_split : bool (* stringprefix fromString uses SplitN(v, delim, 2); the DSL compiler sets delim = "":
+                                  the string is cut after its first character instead of after the prefix *)
 }.
 
 Definition pinned : quirks :=
@@ -40,7 +42,7 @@ Definition pinned : quirks :=
      q_listpairs_unknown_panic := true; q_listpairs_iter_index := true; q_enum_name_alias := true;
      q_enum_type_unchecked := true; q_kinded_enum_kind := true; q_kinded_len := true;
      q_nullable_sum_panic := true; q_int_narrow := true; q_union_any := true;
-     qg_tuple_missing := true; qg_nullable_kinded_null := true |}.
+     qg_tuple_missing := true; qg_nullable_kinded_null := true; qg_stringprefix_split := true |}.
 
 Definition qoff : quirks :=
   {| q_dup_field := false; q_dup_mapkey := false; q_union_two := false; q_rename_alias := false;
@@ -48,7 +50,7 @@ Definition qoff : quirks :=
      q_listpairs_unknown_panic := false; q_listpairs_iter_index := false; q_enum_name_alias := false;
      q_enum_type_unchecked := false; q_kinded_enum_kind := false; q_kinded_len := false;
      q_nullable_sum_panic := false; q_int_narrow := false; q_union_any := false;
-     qg_tuple_missing := false; qg_nullable_kinded_null := false |}.
+     qg_tuple_missing := false; qg_nullable_kinded_null := false; qg_stringprefix_split := false |}.
 
 Inductive errc := EKind | ENull | EMissing | EUnknown | EDup | EUnion | EEnum | ELen | ERange | EFuel.
 
@@ -289,6 +291,19 @@ Section Engine.
                   else bmap (VUnion i) (rec (snd m) false x)
               end
           | LRepr, UStringprefix, DString s =>
+              if ong qg_stringprefix_split then
+                (* strings.SplitN(s, "", 2): first character (ASCII modelled) and the rest *)
+                match s with
+                | c :: (_ :: _) as rest =>
+                    if c <? 128 then
+                      match find_idx (fun m => bytes_eqb (m_disc (fst m)) [c]) ms with
+                      | Some (i, m) => bmap (VUnion i) (rec (snd m) false (DString rest))
+                      | None => BErr EUnion
+                      end
+                    else BErr EUnion
+                | _ => BErr EUnion
+                end
+              else
               match find_idx (fun m => is_prefix (m_disc (fst m)) s) ms with
               | None => BErr EUnion
               | Some (i, m) =>
